@@ -318,10 +318,74 @@ def topology_phase():
     return total, bad
 
 
+def run_reentrant(op, items, fb):
+    """replay one behaviour of spec/Reentrancy.tla: the subscriber pushes the next item from
+    inside its on_next exactly where the model's subscriber did"""
+    import rxsci as rs
+    from rx.subject import Subject
+    real = {'first': lambda: rs.ops.first(), 'take2': lambda: rs.ops.take(2),
+            'count': lambda: rs.ops.count(), 'scan': lambda: rs.ops.scan(lambda a, i: a + i, seed=0),
+            'lag1': lambda: rs.data.lag(1), 'lag2': lambda: rs.data.lag(2),
+            'duc': lambda: rs.ops.distinct_until_changed()}[op]()
+    src = Subject()
+    out = []
+    pos = [0]
+    k = [0]
+
+    def push():
+        x = items[pos[0]]
+        pos[0] += 1
+        src.on_next(x)
+
+    def on_next(v):
+        out.append(list(v) if isinstance(v, tuple) else v)
+        j = k[0]
+        k[0] += 1
+        if j < len(fb) and fb[j] and pos[0] < len(items):
+            push()
+    src.pipe(rs.state.with_memory_store([real])).subscribe(on_next=on_next, on_error=lambda e: out.append('error'))
+    while pos[0] < len(items):
+        push()
+    return out
+
+
+def reentrancy_phase():
+    """spec/Reentrancy.tla: store-first is sequential for every pattern of nested pushes,
+    emit-first is refuted; every behaviour is replayed on the real operators"""
+    total = bad = 0
+    for op in ('first', 'take2', 'count', 'scan', 'lag1', 'lag2', 'duc'):
+        c = dict(Op=op, Vals={1, 2}, MaxLen=4, Order='store-first')
+        r = C.run_tlc('Reentrancy', C.cfg(constants=c, invariants=['Sequential', 'EmitBehaviour']), workers=2)
+        if r.violated:
+            print('Reentrancy model violates %s for %s' % (r.violated, op))
+            return None, None
+        d = C.run_tlc('Reentrancy', C.cfg(constants=dict(c, Order='emit-first'), invariants=['Sequential']), workers=2)
+        if d.violated != 'Sequential':
+            print('Reentrancy: emit-first is not refuted for %s' % op)
+            return None, None
+        behs = C.extract_printed(r.stdout, 'BEH')
+        for (_, _op, items, fb, mout) in behs:
+            total += 1
+            real = run_reentrant(op, list(items), list(fb))
+            want = [list(o) if isinstance(o, (list, tuple)) else o for o in mout]
+            if real != want:
+                bad += 1
+                if bad <= 5:
+                    print('EXTRA-MISMATCH reentrancy %s items=%s pushes=%s model=%s real=%s' % (op, list(items), list(fb), want, real))
+        print('reentrancy %s: %d states, %d behaviours replayed (emit-first refuted in %d states)' % (
+            op, r.distinct, len(behs), d.distinct))
+    return total, bad
+
+
 def main():
     C.use_repo()
     bad = 0
     total = 0
+    t5, b5 = reentrancy_phase()
+    if t5 is None:
+        return 2
+    total += t5
+    bad += b5
     t4, b4 = topology_phase()
     if t4 is None:
         return 2
